@@ -233,6 +233,8 @@ def owners(div):
     kind = div.get("kind")
     fn = div.get("fn", "")
     obs = div.get("obs") if isinstance(div.get("obs"), dict) else {}
+    if kind == "crash" and fn == "wincmd":
+        return {"C18"}
     if kind == "crash":
         return {"C14", "C05"}
     if kind in ("infra", "badscript", "badenv", "garbled"):
@@ -342,6 +344,8 @@ def signature(prop, div):
     args = {k: v for k, v in call.items() if k not in ("e", "fn", "h")}
     obs = div.get("obs") if isinstance(div.get("obs"), dict) else {}
     keys = div.get("keys") or [div.get("key")]
+    if div.get("kind") == "contract" and div.get("fn") == "wincmd":
+        return "%s wincmd why=%s argv=%s cmd=%s" % (prop, ",".join(div.get("why", [])), json.dumps(call.get("argv")), json.dumps(obs.get("cmd")))
     if div.get("kind") == "contract":
         return "%s start kind=contract why=%s scenario=%s faults(side,call,errno)=%s r=%s" % (
             prop, ",".join(w for w in div.get("why", []) if w.startswith(prop)), call.get("scenario"), json.dumps(call.get("faults")), obs.get("r"))
@@ -587,6 +591,83 @@ def fam_faults(tier, outdir):
             "asan_replayed": len(averd), "replay_stride": 1, "fault_points": sum(len(m_[2]) for m_ in meta_l[:1]), "records_validated_by_tlc": len(recs)}
 
 
+def fam_wincmd(tier, outdir):
+    """C18: enumerate argument vectors / environments, run the real Windows string code, validate every record with TLC."""
+    t0 = time.time()
+    exe = vlib.build_win()
+    modes = [["single", "4"], ["pair", "2"], ["triple", "1"], ["env"], ["random", "400", str(SEED), "120"]]
+    if tier == "thorough":
+        modes = [["single", "5"], ["pair", "3"], ["triple", "2"], ["env"], ["random", "4000", str(SEED), "900"]]
+    env = dict(os.environ); env.update(vlib.ASAN_ENV)
+    shards, bad = [], []
+    nrec = 0
+    SH = 40000
+    cur, curname, curf = 0, None, None
+    recs_by_id = {}
+    for m in modes:
+        p = subprocess.Popen([exe] + m, stdout=subprocess.PIPE, stderr=subprocess.PIPE, env=env)
+        for line in p.stdout:
+            if curf is None or cur >= SH:
+                if curf:
+                    curf.close()
+                curname = os.path.join(outdir, "win_%03d.ndjson" % len(shards)); shards.append(curname); curf = open(curname, "wb"); cur = 0
+            nrec += 1; cur += 1
+            line = re.sub(rb'"id":\d+', b'"id":%d' % nrec, line, count=1)
+            curf.write(line)
+            if nrec % 997 == 1 or nrec <= 3:
+                recs_by_id[nrec] = line
+        err = p.stderr.read()
+        p.wait()
+        if p.returncode != 0:
+            # sanitizer report / crash inside the Windows string code: a violation (writes past the end, DESIGN 5.6)
+            bad.append({"ok": 0, "kind": "crash", "fn": "wincmd", "status": p.returncode, "call": {"fn": "wincmd", "mode": m},
+                        "obs": {"stderr": err.decode("utf8", "replace")[-1500:]}, "script": {"mode": m}})
+    if curf:
+        curf.close()
+    procs = []
+    for i, sh_ in enumerate(shards):
+        e2 = dict(os.environ); e2["TRACE"] = sh_
+        meta = os.path.join(outdir, "meta_%d" % i)
+        procs.append((sh_, meta, subprocess.Popen(["java", "-Xss256m", "-Xmx3g", "-cp", vlib.TLA_CP, "tlc2.TLC", "-workers", "1", "-metadir", meta, "-config",
+                                                  os.path.join(SPEC, "WinCmdLine.cfg"), os.path.join(SPEC, "WinCmdLine.tla")],
+                                                 stdout=subprocess.PIPE, stderr=subprocess.STDOUT, cwd=SPEC, env=e2, text=True)))
+    states = trans = 0
+    rejected = []
+    for sh_, meta, p in procs:
+        out, _ = p.communicate()
+        shutil.rmtree(meta, ignore_errors=True)
+        if "No error has been found" not in out:
+            raise Infra("WinCmdLine validation failed to complete on %s:\n%s" % (sh_, out[-2000:]))
+        st = parse_tlc_stats(out); states += st["states"]; trans += st["transitions"]
+        vl = [l for l in out.splitlines() if l.startswith('<<"VERDICT"')]
+        if not vl:
+            raise Infra("WinCmdLine printed no verdict")
+        rejected += unescape_beh((vl[0].replace('<<"VERDICT", "', '<<"BEH", "') + "\n").encode())
+    want = {rj["id"] for rj in rejected}
+    if want:
+        for sh_ in shards:
+            with open(sh_) as fh:
+                for line in fh:
+                    rec = json.loads(line)
+                    if rec["id"] in want:
+                        recs_by_id[rec["id"]] = rec
+    for rj in rejected:
+        rec = recs_by_id.get(rj["id"])
+        argv = ["".join(chr(c) for c in a) for a in rec["argv"]] if isinstance(rec, dict) else None
+        bad.append({"ok": 0, "kind": "contract", "fn": "wincmd", "why": ["C18:" + w for w in sorted(rj["why"])],
+                    "call": {"fn": "wincmd", "argv": argv, "envx": rec.get("envx") if isinstance(rec, dict) else None},
+                    "obs": {"cmd": "".join(chr(c) for c in rec["cmd"]) if isinstance(rec, dict) else None, "r": rec.get("r") if isinstance(rec, dict) else None},
+                    "script": rec})
+    for sh_ in shards:
+        os.remove(sh_)
+    samp = []
+    for k in sorted(recs_by_id)[:3]:
+        r_ = recs_by_id[k]
+        samp.append(json.loads(r_) if isinstance(r_, bytes) else r_)
+    return {"family": "wincmd", "tlc": {"states": states, "transitions": trans, "depth": SH}, "scripts": nrec, "replayed": nrec, "ok": nrec - len(rejected),
+            "bad": bad, "samples": samp, "wall_tlc": time.time() - t0, "asan_replayed": nrec, "replay_stride": 1}
+
+
 def fam_wrapper(tier, outdir):
     cfg = os.path.join(outdir, "Wrapper.cfg")
     write_cfg(cfg, "Spec", {}, ["Injective"], view=None, action_constraint=None)
@@ -653,7 +734,7 @@ def run_tlc_plain(name, module, cfgpath, outdir, timeout=1500, workers=8):
     return st
 
 
-FAMILIES = {"wrapper": fam_wrapper, "faults": fam_faults, "env": lambda t, o: fam_launch("env", t, o), "wiring": lambda t, o: fam_launch("wiring", t, o), "options": lambda t, o: fam_launch("options", t, o),
+FAMILIES = {"wincmd": fam_wincmd, "wrapper": fam_wrapper, "faults": fam_faults, "env": lambda t, o: fam_launch("env", t, o), "wiring": lambda t, o: fam_launch("wiring", t, o), "options": lambda t, o: fam_launch("options", t, o),
             "destroy": fam_destroy, "status": fam_status, "run": fam_run, "stop": fam_stop, "life": fam_life, "poll": fam_poll, "stream": fam_stream, "drain": fam_drain}
 
 PROPS = {
@@ -667,6 +748,10 @@ PROPS = {
     "C13": {"families": ["options"], "title": "options rejected up front, accepted as documented"},
     "C04": {"families": ["faults"], "title": "start is all-or-nothing and reports the real cause"},
     "C05": {"families": ["faults", "life"], "title": "no leak, no foreign or double close"},
+    "C18": {"families": ["wincmd"], "title": "Windows command line and environment block",
+            "level_text": "The real Windows string code (process.windows.c, utf.windows.c, compiled unchanged against a stub windows.h, under ASan+UBSan) is run on an exhaustive bounded enumeration of argument vectors and environments; every record of what the stubbed CreateProcessW received is validated by TLC against spec/WinCmdLine.tla (Split(cmdline) = argv by the documented parsing rules, exact buffer size, environment block layout).",
+            "level_note": "Trusted: TLC, the transcription of the documented Windows parsing rules (Split, self-checked on documented examples), the stub windows.h (MultiByteToWideChar maps bytes 1:1: ASCII alphabet only). Windows run-time behaviour is out of reach (DESIGN 8).",
+            "technique": "trace validation by TLC: records from the real Windows string code checked against an independent TLA+ transcription of the Windows argument-splitting rules"},
     "C19": {"families": ["wrapper"], "title": "reproc++ is a faithful mapping of the C API",
             "level_text": "TLC enumerates the option records, wrapper methods and C return values of spec/Wrapper.tla (every field with several pairwise distinguishable values) and predicts what the C layer must receive and what the wrapper must return; each point is executed through the real reproc++ sources over a recording mock of the C API and compared.",
             "technique": "TLA+ mapping model (Wrapper.tla) enumerated by TLC; every point replayed through reproc++ over a mock C API (conformance)"},
@@ -750,9 +835,9 @@ def conclude(prop, tier, results, known, outdir, t0):
                        "script": d.get("script")}, f)
         if n < 25:
             # report only what an immediate re-run repeats (guards against the environment, DESIGN 5.8)
-            if d.get("script") is not None and d.get("kind") != "contract" and replay(path, quiet=True) == 0:
+            if d.get("script") is not None and d.get("kind") != "contract" and d.get("fn") != "wincmd" and replay(path, quiet=True) == 0:
                 continue
-            if d.get("kind") == "contract" and n < 6 and not recheck_contract(d, os.path.join(OUT, prop, "recheck")):
+            if d.get("kind") == "contract" and d.get("fn") != "wincmd" and n < 6 and not recheck_contract(d, os.path.join(OUT, prop, "recheck")):
                 continue
             confirmed += 1
             print("VIOLATION property=%s replay=%s" % (prop, path))
